@@ -19,6 +19,11 @@ CLAIMS = {
    ref="§4 C20",
    note="Trusts go/version.Compare's documented meaning and go/types' FileVersions; does not decide what bounds individual checks pass.",
    technique="SSA value-origin (def-use) analysis + finite abstract evaluation of a comparison-only function"),
+ "C19": dict(
+   text="Only one clause of this property is decided. NOT decided: that the reported offsets, sizes, alignments and padding equal the compiler's for every struct type, that the listing has no gaps or overlaps, that the optimised layout is valid and never larger — all of these are run-time arithmetic against the compiler as oracle. Decided (a necessary condition of 'outputs a permutation of the input fields' and of 'covering the struct'): optimize only sorts its argument through a sort.Interface whose Swap is an exact transposition and whose Len is the whole list; pad (and structlayout's sizes) emit every input field on every path through the loop body and flag every additional element IsPadding; main prints pad's result of the list optimize sorted.",
+   ref="§4 C19",
+   note="sort.Sort is trusted to call only Len/Less/Swap. gcsizes' arithmetic, Less' ordering and pad's offsets are not examined; an edit there is out of reach of this check.",
+   technique="SSA must-pass-through (every loop iteration emits its element) + value-origin checks of appended elements and of the Swap stores"),
  "C13": dict(
    text="The nilness merge table is evaluated from the constant literal in the source and all four semilattice laws plus closure are enumerated exhaustively (125 triples) — a complete decision for that clause. For the solvers and the map lattices the check decides the re-enqueue pairing and pointwise-lifting shape that a least fixpoint needs (necessary conditions on every path), not termination or leastness on all graphs.",
    ref="§4 C13",
@@ -102,7 +107,6 @@ CLAIMS = {
 }
 
 NOT_APPLICABLE = {
- "C19": "every clause is about run-time numbers (offsets, sizes, padding for all struct types) against the compiler as oracle; there is no ordering, ownership, exhaustiveness or table-agreement clause whose violation is visible in the shape of gcsizes/structlayout-optimize, and pinning the arithmetic would be a frozen fragment (DESIGN.md §6)",
 }
 
 PENDING = "check under construction in this round (designed in DESIGN.md §4, not yet registered)"
